@@ -175,6 +175,10 @@ def install(client):
     _saved['dask'] = streamz.dask.default_client
     streamz.core._dask_default_client = lambda: client
     streamz.dask.default_client = lambda: client
+    # (from_kafka_batched(dask=True) imports default_client from distributed.client at call time)
+    import distributed.client
+    _saved['distributed'] = distributed.client.default_client
+    distributed.client.default_client = lambda: client
 
 
 def uninstall():
@@ -183,3 +187,6 @@ def uninstall():
     if _saved:
         streamz.core._dask_default_client = _saved.pop('core')
         streamz.dask.default_client = _saved.pop('dask')
+        if 'distributed' in _saved:
+            import distributed.client
+            distributed.client.default_client = _saved.pop('distributed')
